@@ -67,6 +67,14 @@ def o2(W, ob):
     ob.require_count(len(uses), 3, 'report / lookup / bookkeeping sites in check_checksum_send_interval')
     for b in uses:
         g = G.guard(b)
+        if b in sites(W, f, SL + '::saved_state_by_frame'):
+            # detection half: the lookup happens whenever detection is on and the frame is confirmed -- nothing else conditions it
+            eg = G.essential_guard(b)
+            extra = [a for c in eg for a in c if not (confirmed_bound(a) or (a[0] == 'is' and 'desync_detection' in a[1]) or
+                                                      (a[0] in ('lin', 'ne') and len(a[1]) == 1 and a[1][0][0] == 'self.last_sent_checksum_frame'))]
+            ob.check(not extra, 'check_checksum_send_interval|whenever-confirmed', 'a checksum is looked up whenever the next checksum frame is confirmed',
+                     'the checksum lookup is additionally conditioned by %s: checksums would not be reported for some confirmed frames' % dnf_str([extra])[:200],
+                     where(f, f.blocks[b].term.line))
         ob.check(bool(g) and every_disjunct_has(g, confirmed_bound), 'check_checksum_send_interval|confirmed-only',
                  'a checksum is looked up and reported only for frame_to_send <= sync_layer.last_confirmed_frame()',
                  'the checksum report is not guarded by `frame_to_send <= sync_layer.last_confirmed_frame()` (the frame whose rollback the '
@@ -144,6 +152,16 @@ def o3(W, ob):
                  where(c, s.line))
     rm = [t for t in c.calls() if last_seg(t.callee.best) in ('remove_entry', 'remove') and 'pending_checksums' in cxc.ap_carry(t.args[0].place).s(c)]
     ob.check(len(rm) == 1, 'compare_local_checksums_against_peers|consume', 'compared entries are removed', 'compared pending checksums are not removed', where(c))
+    # ... and only compared entries: a report is marked as dealt with only where a local checksum for that frame was found
+    marks = [t for t in c.calls() if last_seg(t.callee.best) == 'push' and t.args and t.args[0].is_place() and cxc.ap_carry(t.args[0].place).root[0] in ('local', 'ret')
+             and 'pending_checksums' in key(cxc.expr_operand(t.args[1]))]
+    ob.require_count(len(marks), 1, 'site marking a pending checksum as dealt with')
+    for t in marks:
+        g = Gc.guard(t.bb)
+        ok = every_disjunct_has(g, lambda a: a[0] == 'is' and a[1].startswith('self.local_checksum_history[') and a[2] == 'Some' and a[3])
+        ob.check(ok, 'compare_local_checksums_against_peers|remove-only-compared', 'a pending remote checksum is consumed only once a local checksum for that frame exists to compare it with',
+                 'a pending remote checksum is marked as dealt with although no local checksum for its frame was found (guard: %s): that comparison is lost for good' % dnf_str(g)[-200:],
+                 where(c, t.line))
 
 
 def o4(W, ob):
